@@ -3,6 +3,7 @@ import Driver.Store
 import Driver.Smtp
 import Driver.Pop3
 import Driver.San
+import Driver.Broker
 open Driver
 
 /-
@@ -16,5 +17,6 @@ def main (args : List String) : IO UInt32 := do
   | ["smtp"] => runLoop Driver.SmtpMode.step ()
   | ["pop3"] => Driver.Pop3.main
   | ["san"] => runLoop (fun (_ : Unit) toks => ((), (sanHandler toks).getD "bad-op")) ()
+  | ["broker"] => runLoop brokerStep {}
   | _ => IO.eprintln s!"unknown mode {args}"; return 2
   return 0
